@@ -7,6 +7,11 @@
 (* target and the tty_only flag.  Writes and Coloured are the property's two  *)
 (* decisions; Sgr(style) is the escape sequence for a style request.          *)
 (* One "row" of the decision table is one state; a "style" is one state.      *)
+(* Writes(r) means: the encoded record is on the stream when append returns - *)
+(* whatever the record ends with (no newline needed to push it out), in the   *)
+(* coloured and the plain writer alike.  The replay writes a marker to the    *)
+(* file descriptor itself after every append and expects record, marker,      *)
+(* record, marker, ... on the stream.                                         *)
 (***************************************************************************)
 EXTENDS Integers, Sequences, FiniteSets, TLC
 EnvVals == {"unset", "0", "1"}
